@@ -50,8 +50,8 @@ func runC17(c *Ctx) {
 		}}
 		d.run()
 	}
-	c.floor("DET-MAPRANGE", 7)
-	c.floor("DET-COLLECT", 6)
+	c.floor("DET-MAPRANGE", 4)
+	c.floor("DET-COLLECT", 3)
 
 	// positive control: the same rules must fire on the control package
 	ctl := c.loadControl("ctl17")
